@@ -191,8 +191,8 @@ func (s *JavaFullListener) EnterInterfaceBodyDeclaration(ctx *parser.InterfaceBo
 	hasEnterClass = true
 	for _, modifier := range ctx.AllModifier() {
 		modifier := modifier.(*parser.ModifierContext).GetChild(0)
-		if reflect.TypeOf(modifier.GetChild(0)).String() == "*parser.AnnotationContext" {
-			annotationContext := modifier.GetChild(0).(*parser.AnnotationContext)
+		// native / synchronized / transient / volatile are plain tokens without children
+		if annotationContext, ok := modifier.GetChild(0).(*parser.AnnotationContext); ok {
 			common_listener.BuildAnnotation(annotationContext)
 		}
 	}
